@@ -18,6 +18,12 @@ CLAIMED = {
     "C02": ("exploration", "differential runtime monitor: parser/MIC/decrypt vs independent reference decoder on valid, bit-flipped, mutated, resized and random byte strings; buffer-before/after comparison",
             "Every byte string generated is fed to every receive-path entry point; classification, fields, MIC verdicts under several counters, plaintext, buffer preservation on error and decrypt involution are compared with the reference.",
             "Trusts the reference codec; Error variants are not compared, only accept/reject and values.", "6/C02"),
+    "C05": ("exploration", "runtime monitor: exhaustive hook-level counter arithmetic vs the statement's rule + reference acceptance model over device sessions (reference codec decides every verdict)",
+            "Counter reconstruction is compared for all 2^16 wire values per `last` around every boundary class; sessions created at chosen counters receive fresh/replayed/reordered/far-future/forged/oversized frames in RX1, RX2 and Class C gaps on both front-ends and after every transaction the remembered counter, response, delivered payloads and MAC answers are compared with the model.",
+            "Trusts the reference codec; size-limit clause only exercised clearly within/beyond the limit; hook verif::next_fcnt_down is a thin wrapper of the private function.", "6/C05"),
+    "C06": ("fault_enumeration", "runtime monitor with fault injection at every radio-call position; every frame handed to the radio is decoded by the reference codec and counters checked for strict increase",
+            "Base histories over the event alphabet are re-run once per radio call with an injected error at that call (plus sampled double faults and near-2^32 sessions) on nb, async and async+ClassC front-ends; the full counter of every uplink is recovered by MIC verification and must strictly increase until SessionExpired.",
+            "Trusts the reference codec; a frame passed to tx counts as handed to the radio even if the call then errors; guarantee ends once expiry was reported.", "6/C06"),
 }
 
 NOT_YET = "monitor not built yet in this revision (planned in DESIGN.md section 6)"
